@@ -345,6 +345,8 @@ def show_fact(f):
         return "%s %s %s" % (show(f[1]), "==" if k == "eq" else "!=", show(f[2]))
     if k == "cmp":
         return "%s %s %s" % (show(f[2]), f[1], show(f[3]))
+    if k == "notcmp":
+        return "not (%s %s %s)" % (show(f[2]), f[1], show(f[3]))
     if k == "ret":
         return "%s is %s" % (show(f[1]), f[2])
     if k == "forallalt":
